@@ -330,6 +330,50 @@ func suiteSSH(h *H) {
 		}
 		authCase(true, files[0], keys[0])
 		authCase(true, files[2], keys[1])
+		// the file changes while the listener runs (an administrator edits it, an editor leaves it half-written, it is
+		// removed): whoever is admitted afterwards is listed in a version of the file the listener has read — never
+		// "everybody"
+		for _, edit := range []struct {
+			tag     string
+			content string
+			remove  bool
+		}{
+			{"garbage", "this is not a key\n", false},
+			{"wrapped-key", strings.Replace(line(keys[0], "", ""), " ", "\n", 2) + "\n", false},
+			{"long-line", "ssh-ed25519 " + strings.Repeat("A", 2<<20) + "\n", false},
+			{"emptied", "", false},
+			{"removed", "", true},
+			{"other-key", line(keys[2], "", "") + "\n", false},
+		} {
+			path := filepath.Join(dir, "authorized_keys")
+			os.WriteFile(path, []byte(line(keys[0], "", "")+"\n"), 0o600)
+			srv, err := startSSH(dir, false, path, cfg)
+			if err != nil {
+				continue
+			}
+			if c, derr := sshDial(srv.addr, keys[0].signer); derr == nil {
+				c.Close()
+			}
+			past := time.Now().Add(-3 * time.Second)
+			if edit.remove {
+				os.Remove(path)
+			} else {
+				os.WriteFile(path, []byte(edit.content), 0o600)
+				os.Chtimes(path, past, past)
+			}
+			out := "denied"
+			if c, derr := sshDial(srv.addr, keys[1].signer); derr == nil { // a key no version of the file has listed
+				out = "admitted"
+				c.Close()
+			}
+			srv.cancel()
+			v := ""
+			if out == "admitted" {
+				v = fmt.Sprintf("FAIL[C20] after authorized_keys was edited while the listener ran (%s), a key that no version of the file lists is admitted", edit.tag)
+			}
+			h.emit(fmt.Sprintf("!sshauth-edited seed=%d edit=%s", h.seed, edit.tag), out, v, true)
+			h.stat("sshauth.edited")
+		}
 	}
 
 	// ================= sshexec / sshreq / sshchan on one anonymous and one authorised listener
